@@ -178,7 +178,18 @@ Proof.
   - apply gen_parse_ok. now apply (reparse s).
 Qed.
 
+Lemma gen_obs_eq s : gparse_obs gen_parser gen_display s = parse_obs s.
+Proof.
+  unfold gparse_obs, parse_obs. rewrite gen_parse_eq. destruct (parse s) as [u|e]; cbn [lift]; [|reflexivity].
+  rewrite gen_display_eq. unfold canon_display, display. rewrite gen_parse_eq.
+  destruct (parse (print (u_prefix u) (u_media u) (sort_params (u_params u)))); reflexivity.
+Qed.
+
 (* ---- add_session_id -------------------------------------------------------------------------------------- *)
 
 Lemma gen_sid_eq : gen_sid = {| sid_key := SESSION_ID_PARAM_NAME; sid_ok := true |}.
+Proof. reflexivity. Qed.
+
+(* the accessors the harness observes through have the bodies Model/Uri.v models (token comparison by the translator) *)
+Lemma gen_accessors : gen_accessors_ok = true.
 Proof. reflexivity. Qed.
